@@ -1,5 +1,6 @@
 (* Proofs for C06: multi-entry containers list every entry, in order. *)
 From WI Require Import Lib.Base Lib.Info Lib.Strings Lib.Time Model.Containers.
+From WI Require Model.Base64 Model.Pem Model.Routes Proofs.Base64 Proofs.Pem.
 From Coq Require Import ZifyN ZifyNat ZifyBool.
 Open Scope N_scope.
 
@@ -1173,4 +1174,720 @@ Definition example_bundle : list (bytes * pblock) :=
    (bs "text - with - dashes -----BEGIN" ++ [10], mkpblock (bs "PGP MESSAGE") [3]);
    ([10], mkpblock (bs "PRIVATE KEY") [48; 2])].
 Lemma example_bundle_ok : bundle_ok example_bundle (bs "trailing text" ++ [10]) = true /\ length (listed example_bundle) = 3%nat.
+Proof. split; vm_compute; reflexivity. Qed.
+
+(* ====================================================================== *)
+(* Part G.  PEM bundles over the bytes of the file: encoding/pem.Decode as modelled in Model/Pem.v *)
+
+Module MP := WI.Model.Pem.
+Module PP := WI.Proofs.Pem.
+Module B64 := WI.Model.Base64.
+Module PB64 := WI.Proofs.Base64.
+
+Lemma pem_eol_routes : forall crlf, pem_eol crlf = Routes.eol crlf.
+Proof. reflexivity. Qed.
+
+Definition cr_of (crlf : bool) : bytes := if crlf then [13] else [].
+Lemma pem_eol_split : forall crlf, pem_eol crlf = cr_of crlf ++ [10].
+Proof. now intros [|]. Qed.
+
+Lemma take_app_le : forall (A : Type) n (a y : list A), (n <= length a)%nat -> take n (a ++ y) = take n a.
+Proof.
+  induction n as [|n IH]; intros a y H; [reflexivity|]. destruct a as [|x a]; [cbn in H; lia|].
+  cbn [app take]. rewrite IH by (cbn in H; lia). reflexivity.
+Qed.
+
+Lemma in_drop_sp_tab : forall m c, In c m -> MP.is_sp_tab c = false -> In c (MP.drop_sp_tab m).
+Proof.
+  induction m as [|x m IH]; intros c H Hc; [contradiction|]. cbn [MP.drop_sp_tab].
+  destruct (MP.is_sp_tab x) eqn:E; [|exact H].
+  destruct H as [->|H]; [congruence|now apply IH].
+Qed.
+
+Lemma in_trim_right : forall l c, In c l -> MP.is_sp_tab c = false -> In c (MP.trim_right_sp_tab l).
+Proof.
+  intros l c H Hc. unfold MP.trim_right_sp_tab. apply -> in_rev. apply in_drop_sp_tab; [now apply in_rev in H|exact Hc].
+Qed.
+
+(* getLine on a line that is terminated by a line feed *)
+Lemma get_line_lf : forall h y, ~ In 10 h ->
+  exists line, MP.get_line (h ++ 10 :: y) = (line, y)
+    /\ (forall c, In c line -> In c h)
+    /\ (forall c, In c h -> c <> 13 -> MP.is_sp_tab c = false -> In c line).
+Proof.
+  intros h y Hn. unfold MP.get_line. rewrite PP.index_byte_app by exact Hn.
+  assert (Hdrop : drop (S (length h)) (h ++ 10 :: y) = y).
+  { replace (h ++ 10 :: y) with ((h ++ [10]) ++ y) by (now rewrite <- app_assoc).
+    replace (S (length h)) with (length (h ++ [10])) by (rewrite app_length; cbn; lia). apply PP.drop_app_length. }
+  rewrite Hdrop.
+  induction h as [|x h0 _] using rev_ind.
+  - exists []. split; [reflexivity|]. split; intros c H; contradiction.
+  - rewrite app_length. cbn [length].
+    replace (Nat.ltb 0 (length h0 + 1)) with true by (symmetry; apply Nat.ltb_lt; lia).
+    replace (length h0 + 1 - 1)%nat with (length h0) by lia.
+    rewrite <- app_assoc. cbn [app]. rewrite PP.nth_app_length. cbn [andb].
+    destruct (x =? 13) eqn:Ex.
+    + apply N.eqb_eq in Ex. subst x.
+      rewrite PP.take_app_length. eexists. split; [reflexivity|]. split.
+      * intros c H. apply PP.trim_right_incl in H. apply in_or_app. now left.
+      * intros c H Hc Hs. apply in_trim_right; [|exact Hs].
+        apply in_app_or in H as [H|[H|[]]]; [exact H|congruence].
+    + replace (h0 ++ x :: 10 :: y) with ((h0 ++ [x]) ++ 10 :: y) by (now rewrite <- app_assoc).
+      replace (length h0 + 1)%nat with (length (h0 ++ [x])) by (rewrite app_length; cbn; lia).
+      rewrite PP.take_app_length. eexists. split; [reflexivity|]. split.
+      * intros c H. now apply PP.trim_right_incl in H.
+      * intros c H Hc Hs. now apply in_trim_right.
+Qed.
+
+Lemma index_byte_none : forall c l, ~ In c l -> MP.index_byte c l = None.
+Proof.
+  induction l as [|x l IH]; intros H; [reflexivity|]. cbn [MP.index_byte].
+  destruct (x =? c) eqn:E; [apply N.eqb_eq in E; exfalso; apply H; now left|].
+  rewrite IH by (intros Hi; apply H; now right). reflexivity.
+Qed.
+
+(* getLine on the last line of the data *)
+Lemma get_line_last : forall h, ~ In 10 h -> MP.get_line h = (MP.trim_right_sp_tab h, []).
+Proof. intros h H. unfold MP.get_line. now rewrite index_byte_none. Qed.
+
+Definition no_colon (l : bytes) : bool := negb (existsb (fun c => c =? 58) l).
+Lemma no_colon_intro : forall l, ~ In 58 l -> existsb (fun c => c =? 58) l = false.
+Proof.
+  intros l H. destruct (existsb (fun c => c =? 58) l) eqn:E; [|reflexivity].
+  apply existsb_exists in E as [x [Hx E]]. apply N.eqb_eq in E. subst x. contradiction.
+Qed.
+Lemma colon_intro : forall l, In 58 l -> existsb (fun c => c =? 58) l = true.
+Proof. intros l H. apply existsb_exists. exists 58. now split. Qed.
+
+Lemma skip_headers_step : forall f rest line next n, rest <> [] -> MP.get_line rest = (line, next) ->
+  existsb (fun c => c =? 58) line = true -> MP.skip_headers (S f) rest n = MP.skip_headers f next (S n).
+Proof.
+  intros f rest line next n Hne Hg Hl. cbn [MP.skip_headers]. destruct rest as [|c r]; [congruence|].
+  now rewrite Hg, Hl.
+Qed.
+
+(* the header lines: every line with a colon is consumed; the first line without one stops the loop *)
+Lemma skip_headers_lines : forall crlf hs x line next n fuel,
+  (forall h, In h hs -> In 58 h /\ ~ In 10 h) -> (length hs < fuel)%nat ->
+  x <> [] -> MP.get_line x = (line, next) -> existsb (fun c => c =? 58) line = false ->
+  MP.skip_headers fuel (concat (map (fun h => h ++ pem_eol crlf) hs) ++ x) n = Some (x, (n + length hs)%nat).
+Proof.
+  intros crlf. induction hs as [|h hs IH]; intros x line next n fuel Hh Hf Hx Hg Hl.
+  - destruct fuel as [|f]; [cbn in Hf; lia|]. cbn [map concat app length].
+    rewrite (PP.skip_headers_none f x line next n Hx Hg Hl). f_equal. f_equal. lia.
+  - destruct fuel as [|f]; [cbn in Hf; lia|]. cbn [map concat].
+    destruct (Hh h (or_introl eq_refl)) as [H58 H10].
+    rewrite pem_eol_split. rewrite <- !app_assoc.
+    set (R := concat (map (fun h0 => h0 ++ cr_of crlf ++ [10]) hs) ++ x).
+    assert (Hn : ~ In 10 (h ++ cr_of crlf)).
+    { intros H. apply in_app_or in H as [H|H]; [now apply H10|]. destruct crlf; cbn in H; [destruct H as [H|[]]; discriminate|contradiction]. }
+    destruct (get_line_lf (h ++ cr_of crlf) R Hn) as (ln & Hgl & _ & Hin).
+    replace (h ++ cr_of crlf ++ [10] ++ R) with ((h ++ cr_of crlf) ++ 10 :: R) by (now rewrite <- app_assoc).
+    rewrite (skip_headers_step f _ ln R n); [|destruct h; [contradiction|discriminate]|exact Hgl|].
+    2:{ apply colon_intro. apply Hin; [apply in_or_app; now left|discriminate|reflexivity]. }
+    unfold R.
+    assert (Hrec := IH x line next (S n) f (fun h' Hh' => Hh h' (or_intror Hh')) ltac:(cbn in Hf; lia) Hx Hg Hl).
+    rewrite pem_eol_split in Hrec.
+    replace (fun h0 : list N => h0 ++ cr_of crlf ++ [10]) with (fun h0 : list N => h0 ++ (cr_of crlf ++ [10])) by reflexivity.
+    rewrite Hrec. f_equal. f_equal. cbn [length]. lia.
+Qed.
+
+(* pem.go:137-183, what Decode does once the type line and the headers are read *)
+Definition finish (typ rest2 : bytes) (nh : nat) : MP.attempt :=
+  let idx : option (nat * nat) :=
+    if Nat.eqb nh 0 && prefix_of MP.pem_end rest2 then Some (O, length MP.pem_end)
+    else match index_of (10 :: MP.pem_end) rest2 with
+         | Some i => Some (i, (i + S (length MP.pem_end))%nat)
+         | None => None
+         end in
+  match idx with
+  | None => MP.Retry rest2
+  | Some (end_index, end_trailer_index) =>
+      let end_trailer := drop end_trailer_index rest2 in
+      let etl := (length typ + length MP.pem_dashes)%nat in
+      if Nat.ltb (length end_trailer) etl then MP.Retry rest2
+      else
+        let rest_of_end_line := drop etl end_trailer in
+        let et := take etl end_trailer in
+        if negb (prefix_of typ et) || negb (has_suffix MP.pem_dashes et) then MP.Retry rest2
+        else
+          match fst (MP.get_line rest_of_end_line) with
+          | _ :: _ => MP.Retry rest2
+          | [] =>
+              match B64.std_decode B64.Std (MP.remove_sp_tab (take end_index rest2)) with
+              | None => MP.Retry rest2
+              | Some body =>
+                  MP.Found typ body (snd (MP.get_line (drop (end_index + length MP.pem_end) rest2)))
+              end
+          end
+  end.
+
+Lemma attempt_block_split : forall rest0 tl rest1 rest2 nh,
+  MP.get_line rest0 = (tl, rest1) -> has_suffix MP.pem_dashes tl = true ->
+  MP.skip_headers (S (length rest1)) rest1 O = Some (rest2, nh) ->
+  MP.attempt_block rest0 = finish (take (length tl - length MP.pem_dashes) tl) rest2 nh.
+Proof.
+  intros rest0 tl rest1 rest2 nh H1 H2 H3. unfold MP.attempt_block. rewrite H1, H2. cbn [negb].
+  rewrite H3. reflexivity.
+Qed.
+
+(* the END line *)
+Definition fin_eol (crlf fin : bool) : bytes := if fin then pem_eol crlf else [].
+
+Lemma end_marker_no_lf : forall label m, ~ In 10 label -> ~ In 10 m -> ~ In 10 (m ++ label ++ MP.pem_dashes).
+Proof.
+  intros label m Hl Hm H. apply in_app_or in H as [H|H]; [now apply Hm|].
+  apply in_app_or in H as [H|H]; [now apply Hl|].
+  cbn in H. repeat (destruct H as [H|H]; [discriminate|]). contradiction.
+Qed.
+
+Lemma end_marker_trim : forall label m, MP.trim_right_sp_tab (m ++ label ++ MP.pem_dashes) = m ++ label ++ MP.pem_dashes.
+Proof.
+  intros label m. replace (m ++ label ++ MP.pem_dashes) with ((m ++ label ++ bs "----") ++ [45]).
+  2:{ rewrite <- !app_assoc. reflexivity. }
+  now apply PP.trim_right_keep.
+Qed.
+
+(* the line that holds a marker, the label and the dashes, then the end of the line or of the data *)
+Lemma end_marker_line : forall label crlf fin post m, ~ In 10 label -> (fin = true \/ post = []) -> ~ In 10 m ->
+  MP.get_line (m ++ label ++ MP.pem_dashes ++ fin_eol crlf fin ++ post) = (m ++ label ++ MP.pem_dashes, post).
+Proof.
+  intros label crlf fin post m Hl Hf Hm. destruct fin; cbn [fin_eol].
+  - replace (m ++ label ++ MP.pem_dashes ++ pem_eol crlf ++ post)
+      with ((m ++ label ++ MP.pem_dashes) ++ Routes.eol crlf ++ post) by (now rewrite <- !app_assoc).
+    now apply PP.marker_line.
+  - destruct Hf as [Hf|Hf]; [discriminate|]. subst post. cbn [app]. rewrite app_nil_r.
+    rewrite get_line_last by (now apply end_marker_no_lf). now rewrite end_marker_trim.
+Qed.
+
+Lemma end_rest_line : forall crlf fin post, (fin = true \/ post = []) -> fst (MP.get_line (fin_eol crlf fin ++ post)) = [].
+Proof.
+  intros crlf fin post Hf. destruct fin; cbn [fin_eol].
+  - change (pem_eol crlf) with (Routes.eol crlf). now rewrite PP.get_line_empty.
+  - destruct Hf as [Hf|Hf]; [discriminate|]. subst post. reflexivity.
+Qed.
+
+(* the common end of both ways to find the END line: the trailer is checked, the body decoded *)
+Lemma finish_common : forall label crlf fin post rest2 end_index k d,
+  ~ In 10 label -> (fin = true \/ post = []) ->
+  drop (end_index + k) rest2 = label ++ MP.pem_dashes ++ fin_eol crlf fin ++ post ->
+  (exists m, ~ In 10 m /\ drop (end_index + length MP.pem_end) rest2 = m ++ label ++ MP.pem_dashes ++ fin_eol crlf fin ++ post) ->
+  B64.std_decode B64.Std (MP.remove_sp_tab (take end_index rest2)) = Some d ->
+  (let end_trailer := drop (end_index + k) rest2 in
+   let etl := (length label + length MP.pem_dashes)%nat in
+   if Nat.ltb (length end_trailer) etl then MP.Retry rest2
+   else
+     let rest_of_end_line := drop etl end_trailer in
+     let et := take etl end_trailer in
+     if negb (prefix_of label et) || negb (has_suffix MP.pem_dashes et) then MP.Retry rest2
+     else
+       match fst (MP.get_line rest_of_end_line) with
+       | _ :: _ => MP.Retry rest2
+       | [] =>
+           match B64.std_decode B64.Std (MP.remove_sp_tab (take end_index rest2)) with
+           | None => MP.Retry rest2
+           | Some body =>
+               MP.Found label body (snd (MP.get_line (drop (end_index + length MP.pem_end) rest2)))
+           end
+       end) = MP.Found label d post.
+Proof.
+  intros label crlf fin post rest2 end_index k d Hl Hf Hdrop [m [Hm Hdrop2]] Hdec. cbv zeta.
+  rewrite Hdrop, Hdrop2, Hdec.
+  rewrite !app_length.
+  replace (Nat.ltb (length label + (length MP.pem_dashes + (length (fin_eol crlf fin) + length post)))
+                   (length label + length MP.pem_dashes)) with false by (symmetry; apply Nat.ltb_ge; lia).
+  replace (label ++ MP.pem_dashes ++ fin_eol crlf fin ++ post) with ((label ++ MP.pem_dashes) ++ fin_eol crlf fin ++ post)
+    by (now rewrite <- app_assoc).
+  replace (length label + length MP.pem_dashes)%nat with (length (label ++ MP.pem_dashes)) by (now rewrite app_length).
+  rewrite PP.drop_app_length, PP.take_app_length, PP.prefix_of_app, PP.has_suffix_app. cbn [negb orb].
+  rewrite end_rest_line by exact Hf.
+  rewrite <- app_assoc. rewrite end_marker_line by assumption. reflexivity.
+Qed.
+
+(* the END line is found through "\n-----END " after a body text without dashes *)
+Lemma finish_index : forall label crlf fin post pre0 nh d,
+  ~ In 10 label -> (fin = true \/ post = []) ->
+  forallb PP.body_char pre0 = true -> B64.std_decode B64.Std pre0 = Some d ->
+  (nh <> O \/ match pre0 with c :: _ => PP.body_char c = true | [] => False end) ->
+  finish label (pre0 ++ (10 :: MP.pem_end) ++ label ++ MP.pem_dashes ++ fin_eol crlf fin ++ post) nh = MP.Found label d post.
+Proof.
+  intros label crlf fin post pre0 nh d Hl Hf Hpre Hdec Hnh. unfold finish.
+  set (E := label ++ MP.pem_dashes ++ fin_eol crlf fin ++ post).
+  assert (Hcond : Nat.eqb nh 0 && prefix_of MP.pem_end (pre0 ++ (10 :: MP.pem_end) ++ E) = false).
+  { destruct Hnh as [Hnh|Hnh].
+    - destruct nh; [congruence|reflexivity].
+    - destruct pre0 as [|c t]; [contradiction|]. rewrite andb_false_iff. right.
+      cbn [app]. change MP.pem_end with (45 :: bs "----END "). cbn [prefix_of].
+      destruct (45 =? c) eqn:Ec; [|reflexivity]. apply N.eqb_eq in Ec. subst c. discriminate Hnh. }
+  rewrite Hcond.
+  assert (Hidx : index_of (10 :: MP.pem_end) (pre0 ++ (10 :: MP.pem_end) ++ E) = Some (length pre0)).
+  { unfold index_of. change ((10 :: MP.pem_end) ++ E) with (10 :: 45 :: bs "----END " ++ E).
+    change (10 :: MP.pem_end) with (10 :: 45 :: bs "----END ").
+    rewrite PP.index_after_dashless; [reflexivity|].
+    apply (PP.forallb_not_in PP.body_char); [exact Hpre|reflexivity]. }
+  rewrite Hidx.
+  apply (finish_common label crlf fin post _ (length pre0) (S (length MP.pem_end)) d Hl Hf).
+  - replace (length pre0 + S (length MP.pem_end))%nat with (length pre0 + length (10%N :: MP.pem_end))%nat by reflexivity.
+    apply PP.drop_app_plus.
+  - exists [32]. split; [intros [H|[]]; discriminate|].
+    replace (pre0 ++ (10 :: MP.pem_end) ++ E) with ((pre0 ++ (10 :: bs "-----END")) ++ ([32] ++ E)).
+    2:{ rewrite <- !app_assoc. reflexivity. }
+    replace (length pre0 + length MP.pem_end)%nat with (length (pre0 ++ (10 :: bs "-----END"))).
+    2:{ rewrite !app_length. reflexivity. }
+    apply PP.drop_app_length.
+  - rewrite PP.take_app_length. unfold MP.remove_sp_tab. rewrite PP.filter_id; [exact Hdec|].
+    rewrite forallb_forall in *. intros x Hx. specialize (Hpre x Hx). unfold PP.body_char in Hpre.
+    apply andb_true_iff in Hpre as [_ H]. exact H.
+Qed.
+
+(* an empty block without headers: the END line follows the BEGIN line immediately *)
+Lemma finish_prefix : forall label crlf fin post,
+  ~ In 10 label -> (fin = true \/ post = []) ->
+  finish label (MP.pem_end ++ label ++ MP.pem_dashes ++ fin_eol crlf fin ++ post) O = MP.Found label [] post.
+Proof.
+  intros label crlf fin post Hl Hf. unfold finish. rewrite PP.prefix_of_app. cbn [Nat.eqb andb].
+  apply (finish_common label crlf fin post _ O (length MP.pem_end) [] Hl Hf).
+  - apply PP.drop_app_length.
+  - exists []. split; [intros []|]. cbn [app Nat.add]. apply PP.drop_app_length.
+  - reflexivity.
+Qed.
+
+(* the base64 text of a body, broken into lines of any width *)
+Lemma wrapped_chars : forall w crlf d, bytes_ok d = true ->
+  forallb PP.body_char (B64.wrap w crlf (B64.encode B64.Std d)) = true.
+Proof.
+  intros w crlf d H. apply PP.wrap_forall; try reflexivity. unfold B64.encode.
+  apply (PP.encode_core_forall PP.body_char false true) with (n := S (length d)); try reflexivity; [|lia|assumption].
+  intros v Hv.
+  exact (PB64.forall_range (fun v => PP.body_char (B64.b64char false v)) 64 ltac:(vm_compute; reflexivity) v Hv).
+Qed.
+
+Lemma wrapped_strip : forall w crlf d, bytes_ok d = true ->
+  B64.strip_nl (B64.wrap w crlf (B64.encode B64.Std d)) = B64.encode_core false true d
+  /\ forall f, (length (B64.encode_core false true d) < f)%nat -> B64.core f false true (B64.encode_core false true d) = Some d.
+Proof.
+  intros w crlf d H.
+  destruct (PB64.encode_core_props false true (S (length d)) d (Nat.lt_succ_diag_r _) H) as [Hnl Hc].
+  split; [|exact Hc]. unfold B64.encode. cbn [B64.enc_url B64.enc_padded]. now apply PB64.strip_wrap.
+Qed.
+
+Lemma strip_nl_crs : forall crlf, B64.strip_nl (cr_of crlf) = [] /\ B64.strip_nl (pem_eol crlf) = [].
+Proof. intros [|]; split; reflexivity. Qed.
+
+Lemma encode_core_nonempty : forall d, d <> [] -> B64.encode_core false true d <> [].
+Proof. intros [|a [|b [|c r]]] H; [congruence|discriminate..]. Qed.
+
+Lemma wrapped_head : forall w crlf d, bytes_ok d = true -> d <> [] ->
+  match B64.wrap w crlf (B64.encode B64.Std d) with c :: _ => PP.body_char c = true | [] => False end.
+Proof.
+  intros w crlf d H Hne. pose proof (wrapped_chars w crlf d H) as Hc.
+  destruct (wrapped_strip w crlf d H) as [Hs _].
+  destruct (B64.wrap w crlf (B64.encode B64.Std d)) as [|c t].
+  - cbn in Hs. symmetry in Hs. now apply encode_core_nonempty in Hs.
+  - cbn [forallb] in Hc. now apply andb_true_iff in Hc as [Hc _].
+Qed.
+
+Lemma body_char_crs : forall crlf, forallb PP.body_char (cr_of crlf) = true /\ forallb PP.body_char (pem_eol crlf) = true.
+Proof. intros [|]; split; reflexivity. Qed.
+
+(* what a block may look like for pem.Decode to return it (block_ok, boolean):
+   the label has no line feed; header lines have a colon and no line feed; the body consists of octets;
+   an empty block without headers must not have a colon in its label (its END line would be read as a header) *)
+Definition has_byte (c : N) (l : bytes) : bool := existsb (fun x => x =? c) l.
+Definition block_ok (b : ablock) : bool :=
+  negb (has_byte 10 (ab_label b))
+  && forallb (fun h => has_byte 58 h && negb (has_byte 10 h)) (ab_headers b)
+  && bytes_ok (ab_body b)
+  && (negb (is_nil (ab_headers b)) || negb (is_nil (ab_body b)) || negb (has_byte 58 (ab_label b))).
+
+Lemma has_byte_false : forall c l, has_byte c l = false -> ~ In c l.
+Proof.
+  intros c l H Hin. unfold has_byte in H.
+  assert (existsb (fun x => x =? c) l = true) by (apply existsb_exists; exists c; split; [assumption|apply N.eqb_refl]).
+  congruence.
+Qed.
+Lemma has_byte_true : forall c l, has_byte c l = true -> In c l.
+Proof. intros c l H. apply existsb_exists in H as [x [Hx E]]. apply N.eqb_eq in E. now subst x. Qed.
+
+Lemma concat_lines_length : forall crlf hs, (forall h, In h hs -> In 58 h) ->
+  (length hs <= length (concat (map (fun h => h ++ pem_eol crlf) hs)))%nat.
+Proof.
+  intros crlf. induction hs as [|h hs IH]; intros H; cbn [map concat length]; [lia|].
+  rewrite !app_length. specialize (IH (fun h' Hh' => H h' (or_intror Hh'))).
+  destruct h; [destruct (H [] (or_introl eq_refl))|]. cbn [length]. lia.
+Qed.
+
+(* pem.Decode, one pass of its loop, right after the "-----BEGIN " of an armored block *)
+Theorem attempt_armor : forall b post, block_ok b = true -> (ab_fin b = true \/ post = []) ->
+  MP.attempt_block (drop (length pem_begin) (armor b ++ post)) = MP.Found (ab_label b) (ab_body b) post.
+Proof.
+  intros [label hs d w crlf fin] post Hok Hf. cbn [ab_fin] in Hf.
+  unfold block_ok in Hok. cbn [ab_label ab_headers ab_body] in Hok.
+  apply andb_true_iff in Hok as [Hok Hcolon]. apply andb_true_iff in Hok as [Hok Hd].
+  apply andb_true_iff in Hok as [Hl Hhs].
+  assert (Hl10 : ~ In 10 label) by (apply has_byte_false; now destruct (has_byte 10 label)).
+  assert (Hh : forall h, In h hs -> In 58 h /\ ~ In 10 h).
+  { intros h Hin. rewrite forallb_forall in Hhs. specialize (Hhs h Hin). apply andb_true_iff in Hhs as [H1 H2].
+    split; [now apply has_byte_true|apply has_byte_false; now destruct (has_byte 10 h)]. }
+  unfold armor. cbn [ab_label ab_headers ab_body ab_wrap ab_crlf ab_fin].
+  rewrite <- !app_assoc. rewrite PP.drop_app_length.
+  set (E := label ++ pem_dashes ++ fin_eol crlf fin ++ post).
+  set (rest1 := armor_headers crlf hs ++ armor_body w crlf d ++ pem_end ++ E).
+  change (MP.attempt_block (label ++ pem_dashes ++ pem_eol crlf ++ rest1) = MP.Found label d post).
+  assert (Htl : MP.get_line (label ++ pem_dashes ++ pem_eol crlf ++ rest1) = (label ++ MP.pem_dashes, rest1)).
+  { replace (label ++ pem_dashes ++ pem_eol crlf ++ rest1) with (([] ++ label ++ MP.pem_dashes) ++ Routes.eol crlf ++ rest1)
+      by (cbn [app]; now rewrite <- !app_assoc).
+    rewrite (PP.marker_line label crlf Hl10 [] (fun H => H)). reflexivity. }
+  assert (Htyp : take (length (label ++ MP.pem_dashes) - length MP.pem_dashes) (label ++ MP.pem_dashes) = label).
+  { rewrite app_length. replace (length label + length MP.pem_dashes - length MP.pem_dashes)%nat with (length label) by lia.
+    apply PP.take_app_length. }
+  assert (Hsplit : forall rest2 nh, MP.skip_headers (S (length rest1)) rest1 O = Some (rest2, nh) ->
+            MP.attempt_block (label ++ pem_dashes ++ pem_eol crlf ++ rest1) = finish label rest2 nh).
+  { intros rest2 nh Hs. rewrite <- Htyp at 2.
+    apply (attempt_block_split _ (label ++ MP.pem_dashes) rest1 rest2 nh Htl (PP.has_suffix_app label MP.pem_dashes) Hs). }
+  clear Htl Htyp.
+  (* the text before "\n-----END " and what it decodes to *)
+  destruct (wrapped_strip w crlf d Hd) as [Hstrip Hcore].
+  destruct (strip_nl_crs crlf) as [Hscr Hseol]. destruct (body_char_crs crlf) as [Hccr Hceol].
+  pose proof (wrapped_chars w crlf d Hd) as Hwc.
+  set (W := B64.wrap w crlf (B64.encode B64.Std d)) in *.
+  assert (HdecW : forall a z, B64.strip_nl a = [] -> B64.strip_nl z = [] -> B64.std_decode B64.Std (a ++ W ++ z) = Some d).
+  { intros a z Ha Hz. unfold B64.std_decode. cbv zeta. rewrite !PB64.strip_app, Ha, Hz, Hstrip, app_nil_r. cbn [app].
+    apply Hcore. apply Nat.lt_succ_diag_r. }
+  destruct hs as [|h0 hs'].
+  - (* no headers *)
+    cbn [armor_headers app] in rest1.
+    destruct d as [|d0 d'].
+    + (* empty body: the END line follows at once *)
+      cbn [armor_body app] in rest1.
+      assert (Hlc : ~ In 58 label).
+      { cbn [is_nil negb orb] in Hcolon. apply has_byte_false. now destruct (has_byte 58 label). }
+      assert (Hg : MP.get_line rest1 = (MP.pem_end ++ label ++ MP.pem_dashes, post)).
+      { unfold rest1, E. apply end_marker_line; try assumption. intros H. cbn in H. repeat (destruct H as [H|H]; [discriminate|]). contradiction. }
+      rewrite (Hsplit rest1 O).
+      * unfold rest1, E. now apply finish_prefix.
+      * apply (PP.skip_headers_none _ rest1 (MP.pem_end ++ label ++ MP.pem_dashes) post O); [unfold rest1; discriminate|exact Hg|].
+        apply no_colon_intro. intros H. apply in_app_or in H as [H|H].
+        { cbn in H. repeat (destruct H as [H|H]; [discriminate|]). contradiction. }
+        apply in_app_or in H as [H|H]; [now apply Hlc|].
+        cbn in H. repeat (destruct H as [H|H]; [discriminate|]). contradiction.
+    + (* body lines *)
+      assert (Hne : d0 :: d' <> []) by discriminate.
+      pose proof (wrapped_head w crlf (d0 :: d') Hd Hne) as Hhead. fold W in Hhead.
+      assert (Hr1 : rest1 = (W ++ cr_of crlf) ++ (10 :: MP.pem_end) ++ E).
+      { unfold rest1. cbn [armor_body]. fold W. rewrite pem_eol_split. rewrite <- !app_assoc. reflexivity. }
+      assert (HWc : forallb PP.body_char (W ++ cr_of crlf) = true) by (now rewrite forallb_app, Hwc, Hccr).
+      destruct (MP.get_line rest1) as [ln nx] eqn:Hgl.
+      assert (Hsub : forall c, In c ln -> In c (W ++ pem_eol crlf)).
+      { intros c Hc. apply (PP.get_line_incl (W ++ pem_eol crlf) (MP.pem_end ++ E)).
+        - apply in_or_app. right. rewrite pem_eol_split. apply in_or_app. right. now left.
+        - replace ((W ++ pem_eol crlf) ++ MP.pem_end ++ E) with rest1; [rewrite Hgl; exact Hc|].
+          unfold rest1, W. cbn [armor_body]. rewrite <- !app_assoc. reflexivity. }
+      rewrite (Hsplit rest1 O).
+      * rewrite Hr1. apply finish_index; try assumption.
+        -- specialize (HdecW [] (cr_of crlf) eq_refl Hscr). exact HdecW.
+        -- right. destruct W; [contradiction|exact Hhead].
+      * apply (PP.skip_headers_none _ rest1 ln nx O).
+        -- rewrite Hr1. destruct W; [contradiction|discriminate].
+        -- exact Hgl.
+        -- apply no_colon_intro. intros H. apply Hsub in H. revert H.
+           apply (PP.forallb_not_in PP.body_char); [now rewrite forallb_app, Hwc, Hceol|reflexivity].
+  - (* header lines, an empty line, then the body *)
+    set (hs := h0 :: hs') in *.
+    set (x := pem_eol crlf ++ armor_body w crlf d ++ pem_end ++ E).
+    assert (Hr1 : rest1 = concat (map (fun h => h ++ pem_eol crlf) hs) ++ x).
+    { unfold rest1, x, armor_headers, hs. rewrite <- !app_assoc. reflexivity. }
+    assert (Hskip : MP.skip_headers (S (length rest1)) rest1 O = Some (x, length hs)).
+    { rewrite Hr1. change (length hs) with (0 + length hs)%nat.
+      apply (skip_headers_lines crlf hs x [] (armor_body w crlf d ++ pem_end ++ E)); try assumption.
+      - rewrite app_length. pose proof (concat_lines_length crlf hs (fun h Hin => proj1 (Hh h Hin))). lia.
+      - unfold x. destruct crlf; discriminate.
+      - unfold x. change (pem_eol crlf) with (Routes.eol crlf). apply PP.get_line_empty.
+      - reflexivity. }
+    rewrite (Hsplit x (length hs) Hskip).
+    destruct d as [|d0 d'].
+    + assert (Hx : x = cr_of crlf ++ (10 :: MP.pem_end) ++ E).
+      { unfold x. cbn [armor_body app]. rewrite pem_eol_split, <- !app_assoc. reflexivity. }
+      rewrite Hx. apply finish_index; try assumption.
+      * unfold B64.std_decode. cbv zeta. rewrite Hscr. reflexivity.
+      * left. unfold hs. discriminate.
+    + assert (Hx : x = (pem_eol crlf ++ W ++ cr_of crlf) ++ (10 :: MP.pem_end) ++ E).
+      { unfold x. cbn [armor_body]. fold W. rewrite (pem_eol_split crlf) at 2. rewrite <- !app_assoc. reflexivity. }
+      rewrite Hx. apply finish_index; try assumption.
+      * now rewrite !forallb_app, Hceol, Hwc, Hccr.
+      * now apply HdecW.
+      * left. unfold hs. discriminate.
+Qed.
+
+Lemma armor_begin : forall b, prefix_of pem_begin (armor b) = true.
+Proof. intros b. unfold armor. apply prefix_of_app. Qed.
+
+(* dec_enc, no longer a hypothesis: pem.Decode at the start of an armored block returns that block and
+   exactly the bytes after its armor *)
+Theorem pem_dec_armor : forall b rest, block_ok b = true -> (ab_fin b = true \/ rest = []) ->
+  pem_dec (armor b ++ rest) = Some (ablock_block b, rest).
+Proof.
+  intros b rest Hok Hf. unfold pem_dec, MP.pem_decode. cbn [MP.decode_go]. unfold MP.find_start.
+  assert (Hp : prefix_of MP.pem_begin (armor b ++ rest) = true).
+  { unfold armor. rewrite <- !app_assoc. apply PP.prefix_of_app. }
+  rewrite Hp. change (length MP.pem_begin) with (length pem_begin).
+  rewrite (attempt_armor b rest Hok Hf). reflexivity.
+Qed.
+
+(* ---- pem.Decode always returns a strictly shorter rest ---- *)
+Lemma get_line_snd_len : forall x, (length (snd (MP.get_line x)) <= length x)%nat.
+Proof.
+  intros x. unfold MP.get_line. destruct (MP.index_byte 10 x); cbn [snd]; [apply drop_length_le|cbn; lia].
+Qed.
+
+Lemma skip_headers_len : forall f rest n r2 n', MP.skip_headers f rest n = Some (r2, n') -> (length r2 <= length rest)%nat.
+Proof.
+  induction f as [|f IH]; intros rest n r2 n' H; [discriminate|]. cbn [MP.skip_headers] in H.
+  destruct rest as [|c r]; [discriminate|].
+  destruct (MP.get_line (c :: r)) as [line next] eqn:E.
+  destruct (existsb (fun c => c =? 58) line).
+  - apply IH in H. pose proof (get_line_snd_len (c :: r)) as Hl. rewrite E in Hl. cbn [snd] in Hl. lia.
+  - injection H as <- _. lia.
+Qed.
+
+Lemma attempt_block_len : forall r0,
+  match MP.attempt_block r0 with
+  | MP.Found _ _ r => (length r <= length r0)%nat
+  | MP.Retry r => (length r <= length r0)%nat
+  | MP.GiveUp => True
+  end.
+Proof.
+  intros r0. unfold MP.attempt_block.
+  destruct (MP.get_line r0) as [tl rest1] eqn:E1.
+  pose proof (get_line_snd_len r0) as L1. rewrite E1 in L1. cbn [snd] in L1.
+  destruct (negb (has_suffix MP.pem_dashes tl)); [exact L1|].
+  destruct (MP.skip_headers (S (length rest1)) rest1 0) as [[rest2 nh]|] eqn:E2; [|exact I].
+  pose proof (skip_headers_len _ _ _ _ _ E2) as L2.
+  assert (L : (length rest2 <= length r0)%nat) by lia.
+  destruct (if Nat.eqb nh 0 && prefix_of MP.pem_end rest2 then Some (O, length MP.pem_end)
+            else match index_of (10 :: MP.pem_end) rest2 with
+                 | Some i => Some (i, (i + S (length MP.pem_end))%nat)
+                 | None => None
+                 end) as [[ei eti]|]; [|exact L].
+  destruct (Nat.ltb _ _); [exact L|].
+  destruct (_ || _); [exact L|].
+  destruct (fst (MP.get_line _)); [|exact L].
+  destruct (B64.std_decode _ _); [|exact L].
+  pose proof (get_line_snd_len (drop (ei + length MP.pem_end) rest2)) as L3.
+  pose proof (drop_length_le _ (ei + length MP.pem_end) rest2) as L4. lia.
+Qed.
+
+Lemma find_start_len : forall rest r0, MP.find_start rest = Some r0 -> (length r0 < length rest)%nat.
+Proof.
+  intros rest r0 H. unfold MP.find_start in H.
+  destruct (prefix_of MP.pem_begin rest) eqn:E.
+  - assert (Hr : r0 = drop (length MP.pem_begin) rest) by congruence.
+    apply PP.prefix_of_length in E. rewrite Hr, drop_length.
+    change (length MP.pem_begin) with 11%nat in *. lia.
+  - destruct (index_of (10 :: MP.pem_begin) rest) as [i|] eqn:Ei; [|discriminate].
+    assert (Hr : r0 = drop (i + S (length MP.pem_begin)) rest) by congruence.
+    unfold index_of in Ei. apply PP.index_from_length in Ei. rewrite Hr, drop_length.
+    change (length (10 :: MP.pem_begin)) with 12%nat in Ei. lia.
+Qed.
+
+Lemma decode_go_len : forall f rest t b r, MP.decode_go f rest = Some (t, b, r) -> (length r < length rest)%nat.
+Proof.
+  induction f as [|f IH]; intros rest t b r H; [discriminate|]. cbn [MP.decode_go] in H.
+  destruct (MP.find_start rest) as [r0|] eqn:E0; [|discriminate].
+  apply find_start_len in E0. pose proof (attempt_block_len r0) as L.
+  destruct (MP.attempt_block r0) as [t' b' r'|r'|]; [|apply IH in H; lia|discriminate].
+  injection H as _ _ <-. lia.
+Qed.
+
+Theorem pem_dec_shorter : forall r b r', pem_dec r = Some (b, r') -> (length r' < length r)%nat.
+Proof.
+  intros r b r' H. unfold pem_dec in H. destruct (MP.pem_decode r) as [[[t bb] rr]|] eqn:E; [|discriminate].
+  injection H as _ <-. exact (decode_go_len _ _ _ _ _ E).
+Qed.
+
+(* ---- bundles, generic in how a block is written down ---- *)
+Section PemBundleG.
+  Variable B : Type.
+  Variable blk : B -> pblock.                          (* what the written block holds *)
+  Variable fin : B -> bool.                            (* its END line is terminated *)
+  Variable good : B -> bool.
+  Variable enc : B -> bytes.
+  Variable dec : bytes -> option (pblock * bytes).
+  Variable describe : pblock -> result info.
+  Variable d : pblock -> info.
+  Hypothesis enc_begin : forall b, prefix_of pem_begin (enc b) = true.
+  Hypothesis dec_enc : forall b rest, good b = true -> (fin b = true \/ rest = []) ->
+    dec (enc b ++ rest) = Some (blk b, rest).
+
+  Fixpoint render_g (items : list (bytes * B)) (tail : bytes) : bytes :=
+    match items with
+    | [] => tail
+    | (j, b) :: r => j ++ enc b ++ render_g r tail
+    end.
+  (* only the last block may lack the line ending of its END line, and only at the very end of the file *)
+  Fixpoint ends_ok (items : list (bytes * B)) (tail : bytes) : bool :=
+    match items with
+    | [] => true
+    | (_, b) :: r => match r with [] => fin b || is_nil tail | _ => fin b && ends_ok r tail end
+    end.
+  Definition bundle_ok_g (items : list (bytes * B)) (tail : bytes) : bool :=
+    forallb (fun jb => junk_ok (fst jb) && good (snd jb)) items && junk_end tail && ends_ok items tail.
+  Definition listed_g (items : list (bytes * B)) : list B :=
+    filter (fun b => negb (is_pgp_type (pb_type (blk b)))) (map snd items).
+
+  Lemma enc_nonempty_g : forall b rest, exists x r, enc b ++ rest = x :: r.
+  Proof.
+    intros b rest. destruct (prefix_of_split _ _ (enc_begin b)) as [t ->]. unfold pem_begin. cbn. eauto.
+  Qed.
+
+  Lemma bundle_ok_tail : forall jb r tail, bundle_ok_g (jb :: r) tail = true -> bundle_ok_g r tail = true.
+  Proof.
+    intros [j b] r tail H. unfold bundle_ok_g in *. cbn [forallb] in H.
+    apply andb_prop in H as [H He]. apply andb_prop in H as [Hi Ht]. apply andb_prop in Hi as [_ Hi].
+    rewrite Hi, Ht. cbn [andb]. cbn [ends_ok] in He. destruct r as [|jb2 r']; [reflexivity|].
+    now apply andb_prop in He as [_ He].
+  Qed.
+
+  Lemma bundle_ok_head : forall j b r tail, bundle_ok_g ((j, b) :: r) tail = true ->
+    junk_ok j = true /\ good b = true /\ (fin b = true \/ render_g r tail = []).
+  Proof.
+    intros j b r tail H. unfold bundle_ok_g in H. cbn [forallb fst snd] in H.
+    apply andb_prop in H as [H He]. apply andb_prop in H as [Hi Ht]. apply andb_prop in Hi as [Hjb _].
+    apply andb_prop in Hjb as [Hj Hg]. split; [exact Hj|]. split; [exact Hg|].
+    cbn [ends_ok] in He. destruct r as [|jb2 r'].
+    - cbn [render_g]. apply orb_prop in He as [He|He]; [now left|right; now apply is_nil_true].
+    - apply andb_prop in He as [He _]. now left.
+  Qed.
+
+  Lemma skip_render_g : forall items tail, bundle_ok_g items tail = true ->
+    skip_to_pem (render_g items tail) =
+      match items with
+      | [] => []
+      | (j, b) :: r => enc b ++ render_g r tail
+      end.
+  Proof.
+    intros items tail H. destruct items as [|[j b] r]; cbn [render_g].
+    - unfold bundle_ok_g in H. apply andb_prop in H as [H _]. apply andb_prop in H as [_ Ht]. now apply skip_end.
+    - destruct (bundle_ok_head _ _ _ _ H) as [Hj _]. apply skip_junk; [exact Hj|].
+      destruct (prefix_of_split _ _ (enc_begin b)) as [t ->]. rewrite <- app_assoc. apply prefix_of_app.
+  Qed.
+
+  Lemma pem_loop_bundle_g : forall items tail fuel,
+    bundle_ok_g items tail = true -> (length items < fuel)%nat ->
+    (forall b, In b (listed_g items) -> describe (blk b) = Ok (d (blk b))) ->
+    pem_loop dec describe fuel (skip_to_pem (render_g items tail)) = Ok (map (fun b => d (blk b)) (listed_g items)).
+  Proof.
+    induction items as [|[j b] r IH]; intros tail fuel Hok Hf Hd.
+    - rewrite skip_render_g by exact Hok. destruct fuel; reflexivity.
+    - rewrite skip_render_g by exact Hok.
+      destruct fuel as [|f]; [cbn in Hf; lia|].
+      destruct (enc_nonempty_g b (render_g r tail)) as [x [rr E]].
+      destruct (bundle_ok_head _ _ _ _ Hok) as (_ & Hg & Hfin).
+      cbn [pem_loop]. rewrite E. rewrite <- E. rewrite (dec_enc b _ Hg Hfin).
+      pose proof (bundle_ok_tail _ _ _ Hok) as Hok'.
+      unfold listed_g in *. cbn [map snd filter] in *.
+      destruct (is_pgp_type (pb_type (blk b))) eqn:Ep; cbn [negb] in *.
+      + apply IH; [exact Hok'|cbn in Hf; lia|exact Hd].
+      + rewrite (Hd b (or_introl eq_refl)).
+        rewrite IH; [reflexivity|exact Hok'|cbn in Hf; lia|].
+        intros b' Hb'. apply Hd. now right.
+  Qed.
+
+  Lemma render_length_g : forall items tail, (length items <= length (render_g items tail))%nat.
+  Proof.
+    induction items as [|[j b] r IH]; intros tail; cbn [length render_g]; [lia|].
+    destruct (enc_nonempty_g b []) as [x [rr E]]. rewrite app_nil_r in E.
+    rewrite !app_length, E. cbn [length]. specialize (IH tail). lia.
+  Qed.
+
+  Lemma pem_file_bundle_g : forall items tail,
+    bundle_ok_g items tail = true ->
+    (forall b, In b (listed_g items) -> describe (blk b) = Ok (d (blk b))) ->
+    pem_file dec describe (render_g items tail) =
+      match map (fun b => d (blk b)) (listed_g items) with
+      | [] => Err "no valid PEM blocks"
+      | [i] => Ok i
+      | k => Ok (Info (bs "multiple PEM blocks") [] k)
+      end.
+  Proof.
+    intros items tail Hok Hd. unfold pem_file.
+    rewrite (pem_loop_bundle_g items tail _ Hok);
+      [destruct (map (fun b => d (blk b)) (listed_g items)) as [|? [|? ?]]; reflexivity| |exact Hd].
+    pose proof (render_length_g items tail). lia.
+  Qed.
+End PemBundleG.
+
+(* ---- the instance: blocks armored as in Model/Containers.v [armor], decoded by [pem_dec] ---- *)
+Definition bundle_text : list (bytes * ablock) -> bytes -> bytes := render_g ablock armor.
+Definition bundle_text_ok : list (bytes * ablock) -> bytes -> bool := bundle_ok_g ablock ab_fin block_ok.
+Definition listed_blocks : list (bytes * ablock) -> list ablock := listed_g ablock ablock_block.
+
+Theorem pem_file_bytes : forall describe d items tail,
+  bundle_text_ok items tail = true ->
+  (forall b, In b (listed_blocks items) -> describe (ablock_block b) = Ok (d (ablock_block b))) ->
+  pem_file pem_dec describe (bundle_text items tail) =
+    match map (fun b => d (ablock_block b)) (listed_blocks items) with
+    | [] => Err "no valid PEM blocks"
+    | [i] => Ok i
+    | k => Ok (Info (bs "multiple PEM blocks") [] k)
+    end.
+Proof.
+  intros describe d. exact (pem_file_bundle_g ablock ablock_block ab_fin block_ok armor pem_dec describe d armor_begin pem_dec_armor).
+Qed.
+
+(* a block on its own, however it is written (any line width, line ending, headers, END line
+   terminated or not), is described as that block *)
+Lemma pem_file_single_bytes : forall describe d b, block_ok b = true -> is_pgp_type (ab_label b) = false ->
+  describe (ablock_block b) = Ok (d (ablock_block b)) ->
+  pem_file pem_dec describe (armor b) = Ok (d (ablock_block b)).
+Proof.
+  intros describe d b Hok Hp Hd.
+  pose proof (pem_file_bytes describe d [([], b)] []) as H.
+  unfold bundle_text in H. cbn [render_g app] in H. rewrite app_nil_r in H. rewrite H; clear H.
+  - unfold listed_blocks, listed_g. cbn [map snd filter ablock_block pb_type]. rewrite Hp. reflexivity.
+  - unfold bundle_text_ok, bundle_ok_g. cbn [forallb fst snd ends_ok is_nil]. rewrite Hok, orb_true_r. reflexivity.
+  - unfold listed_blocks, listed_g. cbn [map snd filter ablock_block pb_type]. rewrite Hp. cbn [negb].
+    intros b' [<-|[]]. exact Hd.
+Qed.
+
+Lemma pem_as_if_alone_bytes : forall describe d items tail,
+  bundle_text_ok items tail = true ->
+  (forall b, In b (listed_blocks items) -> describe (ablock_block b) = Ok (d (ablock_block b))) ->
+  (2 <= length (listed_blocks items))%nat ->
+  exists children,
+    pem_file pem_dec describe (bundle_text items tail) = Ok (Info (bs "multiple PEM blocks") [] children) /\
+    length children = length (listed_blocks items) /\
+    Forall2 (fun b c => forall b', ablock_block b' = ablock_block b -> block_ok b' = true ->
+                          pem_file pem_dec describe (armor b') = Ok c) (listed_blocks items) children.
+Proof.
+  intros describe d items tail Hok Hd Hn. exists (map (fun b => d (ablock_block b)) (listed_blocks items)).
+  split; [|split; [apply map_length|]].
+  - rewrite (pem_file_bytes describe d items tail Hok Hd).
+    destruct (listed_blocks items) as [|b1 [|b2 l]]; cbn [length] in Hn; try lia. reflexivity.
+  - apply Forall2_map_r. intros b Hb b' Heq Hok'. rewrite <- Heq. apply pem_file_single_bytes; [exact Hok'| |].
+    + unfold listed_blocks, listed_g in Hb. apply filter_In in Hb as [_ Hb].
+      assert (E : ab_label b' = ab_label b) by (unfold ablock_block in Heq; congruence).
+      rewrite E. cbn [ablock_block pb_type] in Hb. now destruct (is_pgp_type (ab_label b)).
+    + rewrite Heq. now apply Hd.
+Qed.
+
+(* the loop of PEMFile with the modelled decoder terminates: the fuel is never exhausted *)
+Lemma pem_dec_loop_fuel : forall describe,
+  (forall f1 f2 rest, (length rest < f1)%nat -> (length rest < f2)%nat ->
+     pem_loop pem_dec describe f1 rest = pem_loop pem_dec describe f2 rest) /\
+  ((forall b, describe b <> Err "fuel") ->
+   forall f rest, (length rest < f)%nat -> pem_loop pem_dec describe f rest <> Err "fuel").
+Proof.
+  intros describe. split; [exact (pem_loop_fuel pem_dec describe pem_dec_shorter)|exact (pem_loop_no_fuel_error pem_dec describe pem_dec_shorter)].
+Qed.
+
+(* non-vacuity: a bundle with leading text, a certificate-sized block in CRLF, a block with headers in lines of
+   48, an empty block, PGP armor, and a last block whose END line ends the file *)
+Definition example_blocks : list (bytes * ablock) :=
+  [(bs "Bag Attributes" ++ [10], mkablock (bs "CERTIFICATE") [] (map N.of_nat (seq 0 100)) 64 true true);
+   ([], mkablock (bs "RSA PRIVATE KEY") [bs "Proc-Type: 4,ENCRYPTED"; bs "DEK-Info: AES-128-CBC,00"] (map N.of_nat (seq 7 90)) 48 false true);
+   (bs "text - with - dashes -----BEGIN" ++ [10], mkablock (bs "PGP MESSAGE") [] [3] 64 false true);
+   ([10], mkablock (bs "PUBLIC KEY") [] [] 64 false true);
+   ([], mkablock (bs "PRIVATE KEY") [] [48; 2; 5; 0] 0 false false)].
+Lemma example_blocks_ok : bundle_text_ok example_blocks [] = true /\ length (listed_blocks example_blocks) = 4%nat.
 Proof. split; vm_compute; reflexivity. Qed.
